@@ -139,6 +139,48 @@ def impl_random(bounds, precisions, n, seed):
     return rows, draws
 
 
+def guarded(ctx, gen, what, case, fn):
+    """Run the implementation on an input of the quantifier.  An exception raised by the generator itself is a
+    failing input (no design is returned); ImportError/AttributeError/TypeError mean the entry point changed and
+    are left to the caller (correspondence broken -> search)."""
+    try:
+        return fn()
+    except (ImportError, AttributeError, TypeError):
+        raise
+    except Exception as e:  # noqa: BLE001
+        what, case = shrink_raise(gen, what, case)
+        ctx.fail(gen + "-raises", "%s raises %s: %s (the property demands a design for every such input)" % (what, type(e).__name__, e),
+                 dict(case, raises=type(e).__name__))
+        return None
+
+
+def call_case(c):
+    b = [tuple(x) for x in c["bounds"]]
+    if c["op"] == "halton":
+        return impl_halton(b, c["N"])
+    if c["op"] == "grid":
+        return impl_grid(b, c["k"])
+    if c["op"] == "lhs":
+        return impl_lhs(b, c["N"], c["np_seed"])
+    return impl_random(b, c["precisions"], c["N"], c["draw_seed"])
+
+
+def shrink_raise(gen, what, case):
+    """Smaller input on which the generator still raises (unit box, one parameter, few samples)."""
+    size = "k" if case["op"] == "grid" else "N"
+    for nb in ([[0.0, 1.0]], case["bounds"][:1], case["bounds"][:2]):
+        for n in (2, 3, 4, case[size]):
+            c = dict(case, bounds=nb)
+            c[size] = n
+            if "precisions" in c:
+                c["precisions"] = c["precisions"][:len(nb)]
+            try:
+                call_case(c)
+            except Exception:  # noqa: BLE001
+                return "%s with number=%d, bounds %r" % (what.split(" ")[0], n, nb), c
+    return what, case
+
+
 # --------------------------------------------------------------------------- python mirrors of the specs (replay / shrink only)
 
 def radical_inverse(b, i):
@@ -293,7 +335,13 @@ def stream_halton(ctx):
     if not ctx.quick:
         cases.append(([(0.0, 1.0)] * 3, 5000))
     cases.append(([(-2.5, 5), (1, 3.4), (6, 10)], 3))   # the test-suite instance
-    outs = [impl_halton(b, n) for b, n in cases]
+    outs = []
+    for b, n in cases:
+        o = guarded(ctx, "halton", "HaltonGenerator with number=%d, bounds %r" % (n, b), {"op": "halton", "N": n, "bounds": [list(x) for x in b]},
+                    lambda: impl_halton(b, n))
+        if o is None:
+            return False
+        outs.append(o)
     model = ctx.lean(["c12.halton %d|%s" % (n, bounds_arg(b)) for b, n in cases])
     for (b, n), out, mo in zip(cases, outs, model):
         ctx.case(("halton", n, key_bounds(b)), nontrivial=(n >= 2),
@@ -381,7 +429,13 @@ def stream_grid(ctx):
     if not ctx.quick:
         cases += [(gen_bounds(rng, 2), 240), (gen_bounds(rng, 3), 38), (gen_bounds(rng, 5), 9), (gen_bounds(rng, 12), 2),
                   (gen_bounds(rng, 1), 3000)]
-    outs = [impl_grid(b, k) for b, k in cases]
+    outs = []
+    for b, k in cases:
+        o = guarded(ctx, "grid", "UniformGenerator with number=%d, bounds %r" % (k, b), {"op": "grid", "k": k, "bounds": [list(x) for x in b]},
+                    lambda: impl_grid(b, k))
+        if o is None:
+            return False
+        outs.append(o)
     model = ctx.lean(["c12.grid %d|%s" % (k, bounds_arg(b)) for b, k in cases])
     for (b, k), out, mo in zip(cases, outs, model):
         ctx.case(("grid", k, key_bounds(b)), nontrivial=(len(b) >= 2 or k >= 3),
@@ -467,7 +521,13 @@ def stream_lhs(ctx):
             d = min(d, 3)
         cases.append((gen_bounds(rng, d), n, rng.getrandbits(31)))
     cases.append(([(-2.5, 5), (1, 3.4), (6, 10)], 3, 42))
-    outs = [impl_lhs(b, n, s) for b, n, s in cases]
+    outs = []
+    for b, n, s in cases:
+        o = guarded(ctx, "lhs", "LHSGenerator with number=%d, bounds %r" % (n, b), {"op": "lhs", "N": n, "bounds": [list(x) for x in b], "np_seed": s},
+                    lambda: impl_lhs(b, n, s))
+        if o is None:
+            return False
+        outs.append(o)
     ans = ctx.lean(["c12.latin %d|%s|%s" % (n, bounds_arg(b), mat(o, rat)) for (b, n, s), o in zip(cases, outs)])
     admit_req, admit_idx = [], []
     for idx, ((b, n, s), out, a) in enumerate(zip(cases, outs, ans)):
@@ -564,7 +624,11 @@ def stream_random(ctx):
     reqs, where = [], []
     outs = []
     for ci, (b, pr, n, s) in enumerate(cases):
-        rows, draws = impl_random(b, pr, n, s)
+        o = guarded(ctx, "random", "RandomGenerator with number=%d, parameters %r" % (n, make_params(b, pr)),
+                    {"op": "random", "N": n, "bounds": [list(x) for x in b], "precisions": pr, "draw_seed": s}, lambda: impl_random(b, pr, n, s))
+        if o is None:
+            return False
+        rows, draws = o
         outs.append((rows, draws))
         ctx.case(("random", n, key_bounds(b), tuple(pr), s), nontrivial=True,
                  sample={"op": "random", "N": n, "bounds": [list(x) for x in b[:4]], "precisions": pr[:4], "draw_seed": s, "first_rows": rows[:2]})
@@ -651,6 +715,14 @@ def replay(ctx, rp):
     c = rp["case"]
     op = c.get("op")
     b = [tuple(x) for x in c.get("bounds", [])]
+    try:
+        return replay_case(c, op, b, rp)
+    except Exception as e:  # noqa: BLE001
+        print("the generator raises %s: %s -- the property demands a design for this input" % (type(e).__name__, e))
+        return False
+
+
+def replay_case(c, op, b, rp):
     if op == "halton":
         out = impl_halton(b, c["N"])
         ok = len(out) == c["N"] and all(len(r) == len(b) for r in out)
